@@ -78,6 +78,9 @@ Proof.
   destruct r; cbn [batch_proj_ok]; intros H; apply andb_true_iff in H as [H _]; rewrite H; reflexivity.
 Qed.
 
+Lemma skipn_S_fold {X} j (l : list X) : match l with [] => [] | _ :: l0 => skipn j l0 end = skipn (S j) l.
+Proof. destruct l; reflexivity. Qed.
+
 Lemma firstn_S_fold {X} j (l : list X) : match l with [] => [] | a :: l0 => a :: firstn j l0 end = firstn (S j) l.
 Proof. destruct l; reflexivity. Qed.
 
@@ -87,9 +90,9 @@ Section Gen.
 Context {A : adapter} {m : dcmode} (S : sim A m) (fnd : list bop -> rclass -> N).
 
 Definition held_ok (h : option item) : Prop := forall i, h = Some i -> item_ok A m S i.
-Definition sop_ok (o : sop) : Prop := match o with SBatch l => okb_s A m S l | _ => True end.
+Definition sop_ok (o : sop) : Prop := match o with SBatch l | SHoldDrain _ _ _ _ l => okb_s A m S l | _ => True end.
 Definition not_panic (ob : obs) : Prop :=
-  match ob with OBatch RPanic _ | ODelCur RPanic _ => False | _ => True end.
+  match ob with OBatch RPanic _ | ODelCur RPanic _ | OHoldDrain RPanic _ _ _ _ => False | _ => True end.
 
 Lemma batch_step s c (h : option item) ops :
   sim_R A m S s c -> okb A m S ops ->
@@ -102,14 +105,34 @@ Proof.
   intros HR Hok. destruct (sim_batch A m S s c ops HR Hok) as [Hp Hrel]. cbn zeta. rewrite Hp.
   destruct (batch_eval m c ops) as [c1|i a].
   - exists c1. split; [reflexivity|exact Hrel].
-  - exists c. split; [reflexivity|]. rewrite Hrel. exact HR.
+  - exists c. split; [reflexivity|exact Hrel].
+Qed.
+
+(* what an iterator delivers before and after a batch, against the contract state at its creation *)
+Lemma holddrain_cond s c a b l j : sim_R A m S s c ->
+  rclass_eqb ROk ROk &&
+  is_prefix (map item_kv (firstn (Datatypes.S j) (a_iter A s a b l)) ++ map item_kv (skipn (Datatypes.S j) (a_iter A s a b l)))
+            (map item_kv (citems m c a b)) &&
+  Nat.leb (min_count l (length (citems m c a b)))
+          (length (map item_kv (firstn (Datatypes.S j) (a_iter A s a b l)) ++ map item_kv (skipn (Datatypes.S j) (a_iter A s a b l)))) &&
+  Nat.leb (length (map item_kv (firstn (Datatypes.S j) (a_iter A s a b l)))) (Datatypes.S j) = true.
+Proof.
+  intros HR. destruct (sim_iter A m S s c a b l HR) as [n [Hn Hle]].
+  pose proof (min_count_le l (length (citems m c a b))) as Hmc.
+  rewrite <- map_app, firstn_skipn, Hn, <- firstn_map, is_prefix_firstn. cbn [rclass_eqb andb].
+  rewrite ?map_length, ?firstn_length, ?map_length.
+  assert (H1 : Nat.leb (min_count l (length (citems m c a b))) (Nat.min n (length (citems m c a b))) = true)
+    by (apply Nat.leb_le; lia).
+  assert (H2 : Nat.leb (Nat.min (Datatypes.S j) (Nat.min n (length (citems m c a b)))) (Datatypes.S j) = true)
+    by (apply Nat.leb_le; lia).
+  rewrite H1, H2. reflexivity.
 Qed.
 
 Lemma step_sim s c h o s' h' ob :
   sim_R A m S s c -> held_ok h -> sop_ok o -> a_step A s h o = (s', h', ob) -> not_panic ob ->
   exists c', o_step_gen m fnd c h o ob = inl (c', h') /\ sim_R A m S s' c' /\ held_ok h'.
 Proof.
-  intros HR Hh Ho Hstep Hnp. destruct o as [l|k|k|a b l|a b l j|]; cbn [a_step] in Hstep.
+  intros HR Hh Ho Hstep Hnp. destruct o as [l|k|k|a b l|a b l j| |a b l j bl]; cbn [a_step] in Hstep.
   - (* batch *)
     destruct (resolve_all h l) as [ops|] eqn:Er.
     + pose proof (okb_resolve A m S h l ops Ho Hh Er) as Hok.
@@ -165,6 +188,23 @@ Proof.
       destruct (a_batch A s [item_bop i]) as [[s1 cl] cf] eqn:Eb. injection Hstep as <- <- <-.
       exists c'. cbn [o_step_gen]. cbn [fst snd] in He, Hr'. split; [exact He|]. split; assumption.
     + injection Hstep as <- <- <-. destruct Hnp.
+  - (* hold, batch, drain: the iterator's output belongs to the state before the batch *)
+    destruct (resolve_all h bl) as [ops|] eqn:Er.
+    + pose proof (okb_resolve A m S h bl ops Ho Hh Er) as Hok.
+      destruct (batch_step s c h ops HR Hok) as [c' [He Hr']].
+      destruct (sim_iter A m S s c a b l HR) as [n [Hn Hle]].
+      destruct (a_batch A s ops) as [[s1 cl] cf] eqn:Eb. injection Hstep as <- <- <-.
+      exists c'. cbn [o_step_gen rclass_eqb andb]. rewrite Er. cbn [fst snd] in He, Hr'.
+      rewrite !firstn_S_fold, !skipn_S_fold.
+      rewrite <- map_app, firstn_skipn, Hn, <- firstn_map, is_prefix_firstn. cbn [andb].
+      rewrite ?map_length, ?firstn_length, ?map_length.
+      pose proof (min_count_le l (length (citems m c a b))) as Hmc.
+      assert (H1 : Nat.leb (min_count l (length (citems m c a b))) (Nat.min n (length (citems m c a b))) = true)
+        by (apply Nat.leb_le; lia).
+      assert (H2 : Nat.leb (Nat.min (Datatypes.S j) (Nat.min n (length (citems m c a b)))) (Datatypes.S j) = true)
+        by (apply Nat.leb_le; lia).
+      rewrite H1, H2. cbn [andb]. split; [exact He|]. split; assumption.
+    + injection Hstep as <- <- <-. destruct Hnp.
 Qed.
 
 Lemma run_sim ops : forall s c h, sim_R A m S s c -> held_ok h -> Forall sop_ok ops ->
@@ -192,6 +232,7 @@ Definition sim_of (e : eng) : sim (adapter_of e) (mode_of e) :=
   | ETiKV => sim_tikv
   | EWrapMem => sim_wrapper memkv ByValue sim_memkv
   | EWrapBadger => sim_wrapper badger ByVersion sim_badger
+  | EWrapTiKV => sim_wrapper tikv ByValue sim_tikv
   end.
 
 (* memkv, TiKV: no write of an empty value; Badger: no DelCurrent(held) after a write in the same batch;
@@ -202,9 +243,37 @@ Definition c11_clean (c : c11_case) : Prop :=
       Forall (sop_ok (sim_of e)) (map fst steps) /\ Forall not_panic (map snd steps)
   | KBigBatch _ _ _ _ _ _ => True
   | KWrapFault _ _ _ _ => True
-  | KSnapshot _ _ _ _ _ _ _ _ => True
   | KInterleave _ _ _ _ _ _ => True
   end.
+
+(* validity is decidable, and the shards evaluate it *)
+Lemma no_delcur_after_writeb_eq l w : no_delcur_after_writeb l w = no_delcur_after_write l w.
+Proof. revert w. induction l as [|o t IH]; intros w; [reflexivity|]. destruct o; cbn; rewrite ?IH; reflexivity. Qed.
+
+Lemma sbop_nonemptyb_ok o : sbop_nonemptyb o = true -> sbop_nonempty o.
+Proof. destruct o as [k v t|k nv ov t|k v t|k|]; cbn; try (intros _; exact I); destruct v || destruct nv; try discriminate; intros _; discriminate. Qed.
+
+Lemma sop_okb_ok e o : sop_okb e o = true -> sop_ok (sim_of e) o.
+Proof.
+  assert (Hb : forall l, sbatch_okb e l = true -> okb_s _ _ (sim_of e) l).
+  { intros l. destruct e; cbn [sbatch_okb sim_of okb_s sim_memkv sim_tikv sim_badger sim_wrapper]; intros H; try exact I.
+    - rewrite no_delcur_after_writeb_eq in H. exact H.
+    - apply Forall_forall. intros x Hx. rewrite forallb_forall in H. apply sbop_nonemptyb_ok. apply H. exact Hx.
+    - rewrite no_delcur_after_writeb_eq in H. exact H.
+    - apply Forall_forall. intros x Hx. rewrite forallb_forall in H. apply sbop_nonemptyb_ok. apply H. exact Hx. }
+  destruct o as [l|k|k|a b l|a b l j| |a b l j bl]; try (intros _; exact I); cbn [sop_okb sop_ok]; apply Hb.
+Qed.
+
+Lemma not_panicb_ok ob : not_panicb ob = true -> not_panic ob.
+Proof. destruct ob as [c cf|c v|c|c o|c o h|c cf|c x bc bcf y]; try (intros _; exact I); destruct c; cbn; try discriminate; intros _; exact I. Qed.
+
+Lemma c11_cleanb_ok c : c11_cleanb c = true -> c11_clean c.
+Proof.
+  destruct c as [e steps final| | |]; cbn [c11_cleanb c11_clean]; try (intros _; exact I).
+  intros H. apply andb_true_iff in H as [H1 H2]. rewrite forallb_forall in H1, H2. split; apply Forall_forall; intros x Hx.
+  - apply sop_okb_ok. apply H1. exact Hx.
+  - apply not_panicb_ok. apply H2. exact Hx.
+Qed.
 
 (* what the two-transaction models predict is serialisable, on every engine *)
 Lemma il_expected_ok e variant : il_oracle e (il_expected e variant) = None.
@@ -227,9 +296,9 @@ Proof. induction l as [|[a b] t IH]; [reflexivity|]. cbn. rewrite IH. reflexivit
 
 Lemma c11_oracle_sound c : c11_clean c -> c11_check c = true -> c11_oracle c = None.
 Proof.
-  destruct c as [e steps final|e n keylen failing cl visible|kind inj obs intact|e n fw bf mi ex io ap|e vr b2 c1 ot g2];
+  destruct c as [e steps final|e n keylen failing cl visible|kind inj obs intact|e vr b2 c1 ot g2];
     cbn [c11_clean c11_check c11_oracle];
-    [| |intros _ H; rewrite H; reflexivity|intros _ H; rewrite H; reflexivity
+    [| |intros _ H; rewrite H; reflexivity
      |intros _ H; apply il_obs_eqb_eq in H; rewrite <- H; apply il_expected_ok].
   - intros [Hok Hnp] Hc.
     destruct (a_run (adapter_of e) (a_init (adapter_of e)) None (map fst steps)) as [sf obs] eqn:Er.
@@ -266,9 +335,9 @@ Proof.
 Qed.
 
 Definition seq_nonempty (ops : list sop) : Prop :=
-  Forall (fun o => match o with SBatch l => Forall sbop_nonempty l | _ => True end) ops.
+  Forall (fun o => match o with SBatch l | SHoldDrain _ _ _ _ l => Forall sbop_nonempty l | _ => True end) ops.
 Definition seq_fresh (ops : list sop) : Prop :=
-  Forall (fun o => match o with SBatch l => no_delcur_after_write l false = true | _ => True end) ops.
+  Forall (fun o => match o with SBatch l | SHoldDrain _ _ _ _ l => no_delcur_after_write l false = true | _ => True end) ops.
 
 (* memkv: the unrestricted statement (the DelCurrent repair of finding C11-F3 has landed) *)
 Lemma refines_memkv : C11_full_statement memkv ByValue mem_R.
@@ -321,3 +390,6 @@ Qed.
 Lemma f3_witness_accepted :
   exists cf, o_run_gen ByValue (fun _ _ => 0) (cs_of []) None (combine f3_ops (snd (a_run memkv [] None f3_ops))) = inl cf.
 Proof. eexists. vm_compute. reflexivity. Qed.
+
+Lemma c11_oracle_sound_checked c : c11_cleanb c = true -> c11_check c = true -> c11_oracle c = None.
+Proof. intros H. apply c11_oracle_sound. apply c11_cleanb_ok. exact H. Qed.
